@@ -37,7 +37,7 @@ fn one(c: &mut Client, f: &Frame) -> Vec<Value> {
     if c.s.write_all(&b).is_err() {
         return vec![];
     }
-    let (resp, _how) = c.read_until(Duration::from_millis(2500), &|x| tcp::has_opaque(x, tcp::SENTINEL));
+    let (resp, _how) = c.read_until(Duration::from_millis(6000), &|x| tcp::has_opaque(x, tcp::SENTINEL));
     parse_responses(&resp).into_iter().filter(|r| r["opq"].as_str() != Some(&tcp::SENTINEL.to_string())).collect()
 }
 
@@ -220,7 +220,7 @@ pub fn suite(port: u16, conn_limit: u32, item_limit: u32, seed: u64, nprog: usiz
     // no idle way: the binary's receive timeout is 60 s
     if let Some(steps) = sc["steps"].as_array_mut() {
         for st in steps.iter_mut() {
-            if st["way"] == "idle" {
+            if st["way"] == "idle" || st["way"] == "idlemid" {
                 st["way"] = json!("close");
             }
         }
